@@ -353,11 +353,14 @@ _MKSEQ_RULE = ("random walks shaped like the search's tree walk (make / null mov
                "pseudo-legal-but-illegal moves made and undone at once) from G1 play-out, G2 sparse and G4 mutated positions; "
                "distinct by start position and operation list")
 
+_C10TWO_RULE = ("two or three games alive at once (boards from board.StartPos(), from FromFEN, or of several uci.Drivers), played "
+                "interleaved with different move lists; every board observed after every ply of every game (shared with C10)")
 reg(Prop("C03", "Undoing a move restores the position exactly", ["Properties/C03.v", "Properties/C03_closed.v"],
          [StreamCfg("mk", 12000, 300000,
                     rule="G1/G2/G4 positions x generated (pseudo-legal, legal or not) moves and the null move; snapshot after make, "
                          "token, snapshot after undo; distinct by position and move"),
-          StreamCfg("mkseq", 2500, 60000, judge="judge_c03", rule=_MKSEQ_RULE)],
+          StreamCfg("mkseq", 2500, 60000, judge="judge_c03", rule=_MKSEQ_RULE),
+          StreamCfg("c10two", 63, 4000, judge="judge_c03two", rule=_C10TWO_RULE)],
          trusted=_BOARD_TRUSTED,
          assumptions=["Rep b (the three placement encodings agree, words < 2^64, ep < 64, castles < 16, non-empty hash history, clock in int16 range)",
                       "applicable b m (explicit executable predicate, implied by IsPseudoLegal / membership in the generated moves on valid positions)"],
@@ -369,7 +372,8 @@ reg(Prop("C04", "Incremental hash and redundant board representations never drif
                     rule="transposition pairs a b c d / c b a d and a b c d / a d c b of legal moves from G1/G2/G4 positions, both orders legal; "
                          "non-trivial = both orders reach the same key (placement, side to move, rights, en-passant state)"),
           StreamCfg("mk", 6000, 100000,
-                    rule="single make/undo with the recomputed hash after make (shared with C03)")],
+                    rule="single make/undo with the recomputed hash after make (shared with C03)"),
+          StreamCfg("c10two", 63, 4000, judge="judge_c04two", rule=_C10TWO_RULE)],
          trusted=_BOARD_TRUSTED,
          assumptions=["Rep b0 and hd (hashes b0) = calc_hash b0 at the start (established by ResetHash: C04_reset)",
                       "arbitrary Zobrist tables (Section variable); the engine's tables are regenerated into Gen/Zobrist.v for the correspondence"],
@@ -727,7 +731,21 @@ reg(Prop("C10", "Repetition count equals true recurrences of the position in the
                          "play-outs with a 20-50 % undo bias; random prefixes followed by cycles of 4, 6 and 8 plies "
                          "interleaved with irreversible moves; roots carrying an en-passant square), each observed after "
                          "EVERY ply through MakeMove and through consecutive UCI position commands, plus a FEN reload in "
-                         "the middle; non-trivial = some position of the history occurs at least twice; distinct by input")],
+                         "the middle; non-trivial = some position of the history occurs at least twice; distinct by input"),
+          StreamCfg("c10two", int(os.environ.get("VERIF_C10_N", "63")), 4000, judge="judge_c10two",
+                    rule="two or three games ALIVE AT ONCE, played interleaved (round-robin, one after the other, random bursts) "
+                         "with different repetition-rich move lists of 2..145 plies: boards from board.StartPos(), from FromFEN "
+                         "(control, also other roots) or the boards of several uci.Drivers; after every ply of every game "
+                         "Threefold, Hash()==calculateHash() and the history length of EVERY board; final snapshots incl. the "
+                         "whole hash history; everything undone; ResetHash on a used board followed by a new start board; "
+                         "non-trivial = the games differ and some position recurs"),
+          StreamCfg("c10reuse", int(os.environ.get("VERIF_C10_N", "63")), 4000, judge="judge_c10reuse",
+                    rule="ONE uci.Driver given 2..4 `position startpos moves` commands in a row where the next list is not a "
+                         "continuation of the previous one: at least as long with the SAME move at the previous list's last "
+                         "index (two moves of one side transposed, or one move replaced, rest replayed), unrelated, shorter, "
+                         "honest continuations; ucinewgame / position fen in between for some; after each command all "
+                         "attributes of the driver's board (FEN fields), Threefold, history length, Hash()==calculateHash(); "
+                         "non-trivial = a transposed/replaced list follows a startpos list without reset")],
          trusted=["hooks uci/export_verif.go (VerifBoard, VerifParseUCIMove) and board/export_verif.go (snapshot/restore)",
                   "in-process uci.Driver fed through a pipe and synchronised with isready/readyok; search replaced by a stub",
                   "named premises of C10_true: step_link (C03/C04 + C02), valid_link (valid_step), no_collision, "
